@@ -100,6 +100,9 @@ impl Rig {
     }
 }
 
+/// set by workloads that do verify signatures under Miri (C19)
+pub static MIRI_REAL_KEYS: std::sync::atomic::AtomicBool = std::sync::atomic::AtomicBool::new(false);
+
 pub fn pk_param(alg: iana::Algorithm) -> PublicKeyCredentialParameters {
     PublicKeyCredentialParameters { ty: PublicKeyCredentialType::PublicKey, alg }
 }
@@ -215,16 +218,28 @@ pub fn seeded_passkey(
     hmac: Option<(Vec<u8>, Option<Vec<u8>>)>,
 ) -> (Passkey, Vec<u8>, Vec<u8>) {
     use p256::elliptic_curve::sec1::ToEncodedPoint;
-    let sk = loop {
-        let d = rng.bytes(32);
-        if let Ok(sk) = p256::SecretKey::from_slice(&d) {
-            break sk;
-        }
+    let (x, y, d): (Vec<u8>, Vec<u8>, Vec<u8>) = if cfg!(miri) && !MIRI_REAL_KEYS.load(std::sync::atomic::Ordering::Relaxed) {
+        // under Miri a scalar multiplication costs seconds: use d = 1, whose public point is the
+        // P-256 base point (constants from SEC 2); only used where no signature is verified
+        let _ = rng.bytes(32);
+        let mut d = vec![0u8; 32];
+        d[31] = 1;
+        (
+            crate::report::unhex("6b17d1f2e12c4247f8bce6e563a440f277037d812deb33a0f4a13945d898c296"),
+            crate::report::unhex("4fe342e2fe1a7f9b8ee7eb4a7c0f9e162bce33576b315ececbb6406837bf51f5"),
+            d,
+        )
+    } else {
+        let sk = loop {
+            let d = rng.bytes(32);
+            if let Ok(sk) = p256::SecretKey::from_slice(&d) {
+                break sk;
+            }
+        };
+        let ep = sk.public_key().to_encoded_point(false);
+        (ep.x().unwrap().to_vec(), ep.y().unwrap().to_vec(), sk.to_bytes().to_vec())
     };
-    let ep = sk.public_key().to_encoded_point(false);
-    let x = ep.x().unwrap().to_vec();
-    let y = ep.y().unwrap().to_vec();
-    let key = CoseKeyBuilder::new_ec2_priv_key(iana::EllipticCurve::P_256, x.clone(), y.clone(), sk.to_bytes().to_vec())
+    let key = CoseKeyBuilder::new_ec2_priv_key(iana::EllipticCurve::P_256, x.clone(), y.clone(), d)
         .algorithm(iana::Algorithm::ES256)
         .build();
     let pk = Passkey {
